@@ -461,6 +461,10 @@ func runC02(c *Ctx) {
 			walk(bo.Y)
 		}
 	}
+	if len(rw.Call.Args) < 2 {
+		c.undecided("R-GOAT-REBUILD", "stree.(*Tree).insert:rebuild", rw.Pos(), "the rebuild is not handed a node count: how many nodes it rebalances cannot be related to the size the scapegoat criterion was evaluated for")
+		return
+	}
 	walk(rw.Call.Args[1])
 	// a size that reaches the helper as a parameter is decomposed at the call site inside the insertion
 	var insLeaves []ssa.Value
